@@ -1,50 +1,63 @@
 #!/venv/bin/python
-"""Copy confirmed seeded changes into /verif/seeded/<id>/ with meta.json (run after validate_seeded + eval_seeded).
+"""Copy confirmed seeded changes into /verif/seeded/<id>/ (patch.diff rebased onto /repo HEAD, demo.py, README.md, meta.json).
 
-usage: collect_seeded.py <results.jsonl> <eval.log>"""
+usage: collect_seeded.py <validation.jsonl>... -- <recheck.jsonl>...
+  validation rows come from tools/validate_seeded.py (demo clean/patched + the pinned suite, in a scratch worktree);
+  recheck rows from tools/recheck_seeded.py (demo clean/patched on the final HEAD + the rebased diff).
+Names: validation rows 'Cxx-mN' (round 1) or 'r2-Cxx-mN' (round 2); recheck rows 'Cxx-mN' / 'Cxx-r2mN'."""
 import json
 import os
-import re
-import shutil
 import sys
 
 HERE = os.path.dirname(os.path.dirname(os.path.abspath(__file__)))
-results = [json.loads(l) for l in open(sys.argv[1]) if l.strip()]
-evaltxt = open(sys.argv[2]).read() if len(sys.argv) > 2 else ''
-fired = {}
-cur = None
-for line in evaltxt.splitlines():
-    m = re.match(r'== (.*)/patch.diff', line)
-    if m:
-        cur = m.group(1)
-        fired[cur] = dict(checks=[], lines=[])
-    elif cur and line.strip().startswith('fired:'):
-        fired[cur]['checks'] = re.findall(r'C\d\d', line)
-    elif cur and re.match(r'\s+C\d\d\.', line):
-        fired[cur]['lines'].append(line.strip()[:400])
-for r in results:
+args = sys.argv[1:]
+k = args.index('--')
+val, rec = {}, {}
+for p in args[:k]:
+    for l in open(p):
+        if l.strip():
+            r = json.loads(l)
+            n = r['name']
+            if n.startswith('r2-'):
+                n = n[3:].replace('-m', '-r2m')
+            val[n] = r
+for p in args[k + 1:]:
+    for l in open(p):
+        if l.strip():
+            r = json.loads(l)
+            if 'error' not in r:
+                rec[r['name']] = r
+kept = 0
+for n in sorted(rec):
+    r, v = rec[n], val.get(n)
     if not r.get('valid'):
-        print('skip (not confirmed):', r['name'], {k: r.get(k) for k in ('demo_clean_rc', 'demo_patched_rc', 'suite_missing', 'apply_error')})
+        print('skip %s: demo on HEAD clean rc=%s patched rc=%s applies=%s' % (n, r.get('demo_clean_rc'), r.get('demo_patched_rc'), r.get('applies')))
         continue
-    src = r['src']
-    dst = os.path.join(HERE, 'seeded', r['name'])
+    if v is None or not v.get('valid'):
+        print('skip %s: no valid suite confirmation' % n)
+        continue
+    dst = os.path.join(HERE, 'seeded', n)
     os.makedirs(dst, exist_ok=True)
-    shutil.copy(os.path.join(src, 'patch.diff'), os.path.join(dst, 'patch.diff'))
-    shutil.copy(os.path.join(src, 'demo.py'), os.path.join(dst, 'demo.py'))
-    readme = ''
-    if os.path.exists(os.path.join(src, 'README.md')):
-        readme = open(os.path.join(src, 'README.md')).read()
-    f = fired.get(src.rstrip('/'), dict(checks=[], lines=[]))
+    open(os.path.join(dst, 'patch.diff'), 'w').write(r['rebased'])
+    src = r['src']
+    open(os.path.join(dst, 'demo.py'), 'w').write(open(os.path.join(src, 'demo.py')).read())
+    readme = open(os.path.join(src, 'README.md')).read() if os.path.exists(os.path.join(src, 'README.md')) else ''
+    open(os.path.join(dst, 'README.md'), 'w').write(readme)
+    old = {}
+    if os.path.exists(os.path.join(dst, 'meta.json')):
+        old = json.load(open(os.path.join(dst, 'meta.json')))
     meta = dict(
-        id=r['name'], property=r['name'].split('-')[0],
-        source='independent sub-agent given only the property text and a scratch worktree',
-        description=readme.strip(),
+        id=n, property=n.split('-')[0], round=2 if '-r2' in n else 1,
+        source='independent sub-agent given only the text of the property and its own scratch git worktree of /repo',
+        what_it_needs='see README.md (the sub-agent\'s description: the change, why it breaks the property, what it needs to show)',
         confirmed=dict(
-            how='tools/validate_seeded.py in a scratch worktree of /repo HEAD (removed afterwards)',
-            demo_on_clean_tree_exit=r['demo_clean_rc'], demo_with_patch_exit=r['demo_patched_rc'],
-            demo_with_patch_last_line=r.get('demo_patched_tail'),
-            suite_with_patch=r.get('suite_tail'), stable_pass_tests_not_passing=r.get('suite_missing')),
-        detected_by=f['checks'], reports=f['lines'][:4],
-        replay='git -C /repo apply /verif/seeded/%s/patch.diff && /venv/bin/python /verif/check.py <Cxx>; git -C /repo checkout -- .' % r['name'])
+            suite='tools/validate_seeded.py in a scratch worktree (removed afterwards): demo exit %s on the clean tree, exit %s with the '
+                  'patch; pinned suite with the patch: %s; stable_pass tests not passing: %s'
+                  % (v['demo_clean_rc'], v['demo_patched_rc'], v.get('suite_tail'), v.get('suite_missing')),
+            on_final_head='tools/recheck_seeded.py at /repo %s: patch applies (%s), glue compiles, demo exit %s clean / exit %s patched (%s)'
+                          % (r.get('head'), r.get('applies'), r['demo_clean_rc'], r['demo_patched_rc'], (r.get('demo_patched_tail') or [''])[0][:200])),
+        detected_by=old.get('detected_by', []), reports=old.get('reports', []),
+        replay='git -C /repo apply /verif/seeded/%s/patch.diff && /venv/bin/python /verif/check.py %s; git -C /repo checkout -- .' % (n, n.split('-')[0]))
     json.dump(meta, open(os.path.join(dst, 'meta.json'), 'w'), indent=1)
-    print('kept', r['name'], 'detected by', f['checks'] or 'NONE')
+    kept += 1
+print('kept', kept)
